@@ -168,3 +168,9 @@ PROPS = {
 for _p, _s in QUICK_SCALE.items():
     if _p in PROPS:
         PROPS[_p]["quick"][0] = dict(PROPS[_p]["quick"][0], scale=_s)
+# thorough: the fixed-count differential passes finished in 0.5-3 min at scale 1 (measured on the unchanged tree); scaled so that
+# each takes roughly 8-15 min on 16 cores (the per-pass budget_s still caps it: cases beyond the budget are skipped, never judged)
+THOROUGH_SCALE = {"C01": 3, "C02": 4, "C04": 5, "C05": 3, "C06": 8, "C11": 12, "C12": 2, "C13": 6, "C14": 5, "C17": 3, "C19": 3, "C20": 3}
+for _p, _s in THOROUGH_SCALE.items():
+    if _p in PROPS:
+        PROPS[_p]["thorough"][0] = dict(PROPS[_p]["thorough"][0], scale=_s)
